@@ -4397,6 +4397,14 @@ class TLSConnection(TLSRecordLayer):
                                                   "Client Hello"):
                         yield result
 
+                # an empty key_share extension parses to client_shares=None
+                if ext.client_shares is None:
+                    for result in self._sendError(AlertDescription
+                                                  .decode_error,
+                                                  "Malformed key_share in "
+                                                  "second Client Hello"):
+                        yield result
+
                 # here we're assuming that the HRR was sent because of
                 # missing key share, that may not always be the case
                 if len(ext.client_shares) != 1:
